@@ -1,5 +1,5 @@
-\* exhaustive, ALL actions together: block + 2 components + 1 pool id, 2 parameters x 2 values, nesting <= 2 (quick)
-CONSTANTS N = 4  Par = {"p", "q"}  NVal = 2  NGrid = 2  MaxDepth = 2  MaxLevel = 4
+\* exhaustive, ALL actions together: block + 2 components + 3 pool ids, 2 parameters x 2 values, nesting <= 2 (quick)
+CONSTANTS N = 6  Par = {"p", "q"}  NVal = 2  NGrid = 2  MaxDepth = 2  MaxLevel = 4
           GridSlot = "stack"  PickleSerial = "fresh"  DbSerial = "max"
 CONSTANTS Keeps <- KeepsSmall  Acts <- ActsAll  Parent0 <- ParentA  Cls0 <- ClsA
           ParOf <- McParOf  GridCls <- McGridCls  MatCls <- McMatCls
